@@ -1,0 +1,13 @@
+//go:build verif
+
+// Contracts for package trie, read by /verif/govc (comment-only file).
+
+package trie
+
+//@ func (*Trie).HasPrefix
+//@   pure
+//@   trusted
+
+//@ func Prefix2bin128
+//@   pure
+//@   trusted
